@@ -122,7 +122,8 @@ OnWritePacket(acc, pk) ==
         \cup If(pk.bad # "", "C08_WholePackets")
         \cup If(cn.disc, "C12_DisconnectLast")
         \cup If(pk.t \in {"CONNACK", "SUBACK", "UNSUBACK", "PINGRESP", "RESERVED0", "RESERVED15"}, "C09_ClientPacketTypes")
-      cn1 == [cn EXCEPT !.pk = Append(@, pk), !.clean = IF pk.t = "CONNECT" THEN pk.clean ELSE @,
+      \* (only what the wire-order clauses look at is kept: the observation state has to stay small on long histories)
+      cn1 == [cn EXCEPT !.pk = IF pk.t \in {"CONNECT", "PUBLISH", "PUBREL"} THEN Append(@, pk) ELSE @, !.clean = IF pk.t = "CONNECT" THEN pk.clean ELSE @,
                         !.disc = @ \/ pk.t = "DISCONNECT",
                         !.other = @ \/ (~IsReader(p) /\ pk.t \notin {"CONNECT"})]
   IN
@@ -192,6 +193,8 @@ OnWrite(m, e) ==
   IF ~Has(m.conns, e.c) THEN R(m, {"Harness_UnknownConn"}) ELSE
   LET cn == m.conns[e.c]
       pre == If(e.n > 0 /\ cn.dirty, "C08_NothingAfterIncomplete")
+          \* the previous Write on this connection was not accepted in full and these are not the bytes it left over
+          \cup If(e.n > 0 /\ ~e.cont, "C08_NothingAfterIncomplete")
           \cup If(e.n > 0 /\ cn.tail > 0 /\ cn.midBy # e.p, "C08_WholePackets")
           \cup If(e.overlap, "C08_NoConcurrentWrite")
           \cup If(e.err \in {"timeout-unarmed", "bad-outcome"}, "Harness_BadOutcome")
@@ -217,7 +220,7 @@ OnReadPacket(acc, pk) ==
       c == acc.c
       cn == m.conns[c]
       first == cn.nread = 0
-      cn1 == [cn EXCEPT !.nread = @ + 1, !.inpk = Append(@, pk)]
+      cn1 == [cn EXCEPT !.nread = @ + 1]   \* (the packets themselves are not kept: no clause reads them back)
   IN
   IF first THEN
     LET ok == pk.t = "CONNACK" /\ pk.bad = "" /\ pk.rc = 0 /\ pk.sp \in {0, 1} /\ ~(pk.sp = 1 /\ cn.clean)
@@ -432,7 +435,8 @@ OnRet(m, e) ==
         own == If(cls = {} /\ ~answered, "C11_OwnResponse")
             \cup If(cls = {} /\ answered /\ ~m.hostile /\ expectFail # <<>>, "C11_OwnResponse")
             \cup If("suberr" \in cls /\ (~answered \/ (~m.hostile /\ e.failed # expectFail)), "C11_OwnResponse")
-        m1 == [m0 EXCEPT !.subs = IF id # 0 /\ Has(@, id) THEN [@ EXCEPT ![id].open = FALSE] ELSE @]
+        Drop(f) == IF id # 0 /\ Has(f, id) THEN [k \in DOMAIN f \ {id} |-> f[k]] ELSE f
+        m1 == [m0 EXCEPT !.subs = Drop(@), !.sacks = Drop(@), !.sacksRead = Drop(@)]
     IN R(m1, common \cup own)
   ELSE IF meth = "Ping" THEN
     \* a Ping that reports success was answered: a PINGRESP reached the client after its own PINGREQ went out
